@@ -541,6 +541,7 @@ func runC11Seq(o *Out) {
 }
 
 func runC11(o *Out) {
+	slicePoolProbe(o, "C11")
 	calls := c11Calls()
 	o.count("distinct_calls", int64(len(calls)))
 	// cold oracle: one fresh process per call
